@@ -70,11 +70,57 @@ fn feed(si: &mut std::process::ChildStdin, bytes: &[u8]) {
     let _ = si.write_all(&bytes[at..]);
 }
 
+/// 0 = the environment the check runs in; 1, 2 = a HOSTILE environment (found missing by R21-C18-1, a data argument
+/// that names an existing file is read from that file): the current directory holds a file named after every rule
+/// and data text of the space (and `-`, `data.json`, `null`, `1` ...), each holding a different, valid JSON text, and
+/// every environment variable of `alphabet::env_names` (standard names + every name the tree under test reads) is
+/// set - to "1" (setting 1) or to a JSON text (setting 2). What the command prints and how it exits is a function of
+/// its arguments and standard input only.
+pub static HOSTILE: std::sync::atomic::AtomicUsize = std::sync::atomic::AtomicUsize::new(0);
+
+pub fn hostile_dir() -> PathBuf {
+    static ONCE: std::sync::Once = std::sync::Once::new();
+    let base = std::env::var("JLMC_WORK").unwrap_or_else(|_| std::env::temp_dir().to_string_lossy().into_owned());
+    // one directory for all workers: its contents are the same whoever writes them
+    let dir = PathBuf::from(base).join("hostile-cwd");
+    ONCE.call_once(|| {
+        std::fs::create_dir_all(&dir).expect("hostile cwd");
+        let mut names: Vec<String> = rule_texts(true).iter().chain(data_texts(true).iter()).map(|s| s.to_string()).collect();
+        for extra in ["-", "--", "data.json", "rule.json", "logic.json", "null", "true", "false", "0", "1", "-1", "42", "1.5", "[]", "{}", "\"a\"", "\"\"", "[1,2]", "{\"a\":1}", "stdin", "jsonlogic"] {
+            names.push(extra.to_string());
+        }
+        for n in names {
+            if n.is_empty() || n == "." || n == ".." || n.contains('/') || n.contains('\u{0}') || n.len() > 200 {
+                continue;
+            }
+            if !dir.join(&n).exists() {
+                let _ = std::fs::write(dir.join(&n), "\"FROM-A-FILE-IN-THE-CURRENT-DIRECTORY\"\n");
+            }
+        }
+    });
+    dir
+}
+
+fn apply_hostile(c: &mut Command) {
+    let h = HOSTILE.load(std::sync::atomic::Ordering::SeqCst);
+    if h == 0 {
+        return;
+    }
+    c.current_dir(hostile_dir());
+    for n in crate::alphabet::env_names() {
+        if n == "RUST_BACKTRACE" {
+            continue;
+        }
+        c.env(n, if h == 1 { "1" } else { "[\"FROM-THE-ENVIRONMENT\"]" });
+    }
+}
+
 pub fn run_cli(kind: &str, args: &[String], stdin: Option<&str>) -> CliObs {
     use std::os::unix::process::ExitStatusExt;
     let mut c = Command::new(cli_bin(kind));
     c.args(args).env_remove("RUST_BACKTRACE").stdout(Stdio::piped()).stderr(Stdio::piped());
     die_with_parent(&mut c);
+    apply_hostile(&mut c);
     // stdin of another KIND than a pipe (PACE 6: a regular file whose offset is past a header that an earlier reader
     // consumed; 7: a regular file at offset 0; 8: a socket): the data is what descriptor 0 delivers from where it stands
     let mode = PACE.load(std::sync::atomic::Ordering::SeqCst);
@@ -263,7 +309,11 @@ fn nested_text(depth: usize) -> String {
 
 fn judge_cli(ctx: &mut Ctx, sub: &str, kind: &str, args: Vec<String>, stdin: Option<&str>, texts: Option<(&str, &str)>, strict_stdout: bool) -> CliObs {
     let pace = PACE.load(std::sync::atomic::Ordering::SeqCst);
-    let case = if pace == 0 { json!({"bin": kind, "argv": args, "stdin": stdin}) } else { json!({"bin": kind, "argv": args, "stdin": stdin, "stdin_pacing": pace}) };
+    let mut case = if pace == 0 { json!({"bin": kind, "argv": args, "stdin": stdin}) } else { json!({"bin": kind, "argv": args, "stdin": stdin, "stdin_pacing": pace}) };
+    let hostile = HOSTILE.load(std::sync::atomic::Ordering::SeqCst);
+    if hostile != 0 {
+        case["hostile_environment"] = json!(hostile);
+    }
     ctx.tick_external(&case);
     let computed;
     let exp: &LibExpect = match texts {
@@ -359,6 +409,42 @@ pub fn c18(ctx: &mut Ctx) {
             }
         }
         non_utf8_space(ctx, kind);
+        // the same product in a hostile environment (see HOSTILE)
+        for setting in [1usize, 2] {
+            if !thorough && ((*kind == "release") != (setting == 2)) {
+                continue; // quick: debug build x setting 1, release build x setting 2
+            }
+            for r in &rules {
+                for d in &datas {
+                    if !ctx.mine() {
+                        continue;
+                    }
+                    HOSTILE.store(setting, std::sync::atomic::Ordering::SeqCst);
+                    if *d != "-" {
+                        ctx.edge();
+                        judge_cli(ctx, "environment:data-as-argument", kind, vec![r.to_string(), d.to_string()], None, Some((r, d)), true);
+                    }
+                    ctx.edge();
+                    judge_cli(ctx, "environment:stdin-no-argument", kind, vec![r.to_string()], Some(d), Some((r, d)), true);
+                    ctx.edge();
+                    judge_cli(ctx, "environment:stdin-dash", kind, vec![r.to_string(), "-".to_string()], Some(d), Some((r, d)), true);
+                    HOSTILE.store(0, std::sync::atomic::Ordering::SeqCst);
+                }
+            }
+            // data arguments that are plain file names of files that exist
+            if ctx.mine() {
+                HOSTILE.store(setting, std::sync::atomic::Ordering::SeqCst);
+                for d in ["1", "null", "true", "42", "[]", "{}", "\"a\"", "data.json", "stdin", "--"] {
+                    ctx.edge();
+                    if d == "--" {
+                        continue;
+                    }
+                    judge_cli(ctx, "environment:file-named-like-the-data", kind, vec![r#"{"var":""}"#.to_string(), d.to_string()], None, Some((r#"{"var":""}"#, d)), true);
+                    judge_cli(ctx, "environment:file-named-like-the-rule", kind, vec![d.to_string(), "7".to_string()], None, Some((d, "7")), true);
+                }
+                HOSTILE.store(0, std::sync::atomic::Ordering::SeqCst);
+            }
+        }
         // Unicode white space that is NOT JSON white space (JSON allows only space, tab, LF, CR), and the
         // BOM, at the very start / end of an otherwise valid text: still invalid JSON, however it is delivered
         {
@@ -770,6 +856,7 @@ pub fn replay_cli(rec: &Value) -> i32 {
     let args: Vec<String> = case["argv"].as_array().map(|a| a.iter().map(|x| x.as_str().unwrap_or("").to_string()).collect()).unwrap_or_default();
     let stdin = case["stdin"].as_str();
     PACE.store(case["stdin_pacing"].as_u64().unwrap_or(0) as usize, std::sync::atomic::Ordering::SeqCst);
+    HOSTILE.store(case["hostile_environment"].as_u64().unwrap_or(0) as usize, std::sync::atomic::Ordering::SeqCst);
     let o = run_cli(kind, &args, stdin);
     println!("argv     : {:?}", args);
     println!("stdin    : {:?}", stdin);
